@@ -119,7 +119,9 @@ class Gen:
             return ["clear", fl, kp]
         if kind == "setdefault":
             k = self.pick_key(abs_kp, p_fresh=0.5)
-            if rng.random() < 0.04:
+            if rng.random() < 0.08:
+                # one argument: stores None -- only where the schema has a leaf or nothing
+                k = self.pick_key(abs_kp, want_leaf=True, p_fresh=0.5)
                 if k not in self.node(abs_kp):
                     self.node(abs_kp)[k] = "n"
                 return ["setdefault", fl, kp, k, None]
@@ -527,10 +529,6 @@ class C06(Prop):
             return None
         i, what, info = d
         op = info.get("op") or case["ops"][i]
-        # F-C06d: setdefault(key) without a default on an absent key -> ValueError
-        if what == "outcome" and op[0] == "setdefault" and op[4] is None \
-                and obs["trace"][i]["out"] == {"err": "ValueError"}:
-            return "F-C06d"
         # F-C06b: write through a held proxy below a section deleted meanwhile -> TypeError in excise()
         if what == "outcome" and info.get("via") is not None and info.get("stale") \
                 and obs["trace"][i]["out"] == {"err": "TypeError"} and op[0] in ("set", "setdefault", "update"):
